@@ -5,6 +5,8 @@ package main
 
 import (
 	"fmt"
+	"go/ast"
+	"go/token"
 	"strings"
 
 	"github.com/NibiruChain/collections"
@@ -42,4 +44,141 @@ func main() {
 	fmt.Printf("Definition gen_genesis_period : Z := %s.\n", z(fmt.Sprint(g.Period)))
 	fmt.Printf("Definition gen_genesis_skipped : Z := %s.\n", z(fmt.Sprint(g.SkippedEpochs)))
 	fmt.Printf("Definition gen_sequence_default : Z := %s.\n", z(fmt.Sprint(collections.DefaultSequenceStart)))
+	genRollover(repo)
+}
+
+// genRollover prints the comparison guarding CurrentPeriod.Next in Hooks.AfterEpochEnd as a term: operator, operands,
+// int64/uint64 conversions — locals and a one-level helper function are inlined, the four quantities are named by role.
+func genRollover(repo string) {
+	files := ParseDir(repo + "/x/inflation/keeper")
+	funcs := Funcs(files)
+	var hook *ast.FuncDecl
+	for _, fl := range files {
+		for _, d := range fl.F.Decls {
+			if fd, ok := d.(*ast.FuncDecl); ok && fd.Name.Name == "AfterEpochEnd" && fd.Recv != nil && fd.Body != nil {
+				hook = fd
+			}
+		}
+	}
+	fmt.Println("Require Import Nib.C13.RollExpr.")
+	out := "(COther, ROther, ROther)"
+	if hook != nil {
+		env := map[string]string{}
+		// the epoch number: the last parameter
+		ps := hook.Type.Params.List
+		if len(ps) > 0 {
+			last := ps[len(ps)-1]
+			if len(last.Names) > 0 {
+				env[last.Names[len(last.Names)-1].Name] = "(RVar VE)"
+			}
+		}
+		var cond ast.Expr
+		for _, st := range hook.Body.List {
+			switch x := st.(type) {
+			case *ast.AssignStmt:
+				if len(x.Lhs) == 1 && len(x.Rhs) == 1 {
+					if id, ok := x.Lhs[0].(*ast.Ident); ok {
+						env[id.Name] = roleOrExpr(x.Rhs[0], env)
+					}
+				}
+			case *ast.IfStmt:
+				calls := false
+				ast.Inspect(x.Body, func(n ast.Node) bool {
+					if c, ok := n.(*ast.CallExpr); ok && strings.HasSuffix(Nospace(c.Fun), ".CurrentPeriod.Next") {
+						calls = true
+					}
+					return true
+				})
+				if calls && cond == nil {
+					cond = x.Cond
+				}
+			}
+		}
+		if cond != nil {
+			out = cmpTerm(cond, env, funcs)
+		}
+	}
+	fmt.Printf("Definition gen_rollover : rcmp * rexp * rexp := %s.\n", out)
+}
+
+func roleOrExpr(e ast.Expr, env map[string]string) string {
+	src := Nospace(e)
+	switch {
+	case strings.HasSuffix(src, ".CurrentPeriod.Peek(ctx)"):
+		return "(RVar VPer)"
+	case strings.HasSuffix(src, ".GetEpochsPerPeriod(ctx)"):
+		return "(RVar VEpp)"
+	case strings.HasSuffix(src, ".NumSkippedEpochs.Peek(ctx)"):
+		return "(RVar VSk)"
+	}
+	return expTerm(e, env)
+}
+
+func expTerm(e ast.Expr, env map[string]string) string {
+	switch x := e.(type) {
+	case *ast.ParenExpr:
+		return expTerm(x.X, env)
+	case *ast.Ident:
+		if t, ok := env[x.Name]; ok {
+			return t
+		}
+	case *ast.CallExpr:
+		if id, ok := x.Fun.(*ast.Ident); ok && len(x.Args) == 1 {
+			switch id.Name {
+			case "int64":
+				return "(RI64 " + expTerm(x.Args[0], env) + ")"
+			case "uint64":
+				return "(RU64 " + expTerm(x.Args[0], env) + ")"
+			}
+		}
+	case *ast.BinaryExpr:
+		op := map[token.Token]string{token.SUB: "RSub", token.ADD: "RAdd", token.MUL: "RMul"}[x.Op]
+		if op != "" {
+			return "(" + op + " " + expTerm(x.X, env) + " " + expTerm(x.Y, env) + ")"
+		}
+	}
+	return "ROther"
+}
+
+func cmpTerm(e ast.Expr, env map[string]string, funcs map[string]*ast.FuncDecl) string {
+	switch x := e.(type) {
+	case *ast.ParenExpr:
+		return cmpTerm(x.X, env, funcs)
+	case *ast.BinaryExpr:
+		op := map[token.Token]string{token.GEQ: "CGe", token.GTR: "CGt", token.LEQ: "CLe", token.LSS: "CLt"}[x.Op]
+		if op != "" {
+			return "(" + op + ", " + expTerm(x.X, env) + ", " + expTerm(x.Y, env) + ")"
+		}
+	case *ast.CallExpr:
+		// a helper of the same package: bind its parameters to the arguments, inline its locals, take its return
+		if id, ok := x.Fun.(*ast.Ident); ok {
+			if fd := funcs[id.Name]; fd != nil && fd.Body != nil && fd.Recv == nil {
+				inner := map[string]string{}
+				i := 0
+				for _, f := range fd.Type.Params.List {
+					for _, n := range f.Names {
+						if i < len(x.Args) {
+							inner[n.Name] = expTerm(x.Args[i], env)
+						}
+						i++
+					}
+				}
+				for _, st := range fd.Body.List {
+					switch y := st.(type) {
+					case *ast.AssignStmt:
+						if len(y.Lhs) == 1 && len(y.Rhs) == 1 {
+							if lid, ok := y.Lhs[0].(*ast.Ident); ok {
+								inner[lid.Name] = expTerm(y.Rhs[0], inner)
+							}
+						}
+					case *ast.ReturnStmt:
+						if len(y.Results) == 1 {
+							return cmpTerm(y.Results[0], inner, map[string]*ast.FuncDecl{})
+						}
+					}
+				}
+			}
+		}
+	}
+	return "(COther, ROther, ROther)"
 }
